@@ -3,7 +3,7 @@
 use jmespath::{ErrorReason, JmespathError, RuntimeError, Variable};
 
 use crate::model::J;
-use crate::runner::catch;
+use crate::runner::{catch, clip};
 use crate::shape::var_to_j;
 
 #[derive(Clone, Debug)]
@@ -235,3 +235,198 @@ pub fn search_chain(l: &str, r: &str, doc_json: &str) -> Vec<ImpOut> {
         Err(p) => vec![ImpOut::Panic(p)],
     }
 }
+
+// ---------------------------------------------------------------------------
+// data-in routes
+
+/// A JSON document handed to a serializer through the less common serde calls:
+/// strings as `char`s or unit enum variants, null as unit / `None` / unit struct,
+/// arrays as tuples or tuple structs, objects as structs or maps of unknown
+/// length, integers at their narrowest width, `Some(..)` and newtype structs
+/// around anything.  Under serde_json every one of these calls denotes the same
+/// JSON value as the plain one, so the value denotes the same document.
+pub struct SerdeCalls<'a> {
+    pub v: &'a serde_json::Value,
+    pub salt: u64,
+}
+
+fn intern(s: &str) -> Option<&'static str> {
+    use std::collections::HashMap;
+    use std::sync::{Mutex, OnceLock};
+    static TABLE: OnceLock<Mutex<HashMap<String, &'static str>>> = OnceLock::new();
+    if s.len() > 12 {
+        return None;
+    }
+    let mut t = TABLE.get_or_init(|| Mutex::new(HashMap::new())).lock().unwrap();
+    if let Some(x) = t.get(s) {
+        return Some(x);
+    }
+    if t.len() >= 20_000 {
+        return None;
+    }
+    let leaked: &'static str = Box::leak(s.to_string().into_boxed_str());
+    t.insert(s.to_string(), leaked);
+    Some(leaked)
+}
+
+impl serde::Serialize for SerdeCalls<'_> {
+    fn serialize<S: serde::Serializer>(&self, s: S) -> Result<S::Ok, S::Error> {
+        use serde::ser::{SerializeMap, SerializeSeq, SerializeStruct, SerializeTuple, SerializeTupleStruct};
+        use serde_json::Value;
+        let h = self.salt.wrapping_mul(0x9E37_79B9_7F4A_7C15).rotate_left(23) ^ (self.salt >> 7);
+        let child = |v, k: usize| SerdeCalls { v, salt: h.wrapping_add(k as u64).wrapping_mul(6364136223846793005).wrapping_add(1442695040888963407) };
+        // wrappers that serde_json treats as transparent
+        match h % 11 {
+            0 => return s.serialize_some(&SerdeCalls { v: self.v, salt: h | 1 << 60 }),
+            1 => return s.serialize_newtype_struct("Wrapper", &SerdeCalls { v: self.v, salt: h | 1 << 61 }),
+            _ => {}
+        }
+        let pick = (h >> 8) % 4;
+        match self.v {
+            Value::Null => match pick {
+                0 => s.serialize_unit(),
+                1 => s.serialize_none(),
+                _ => s.serialize_unit_struct("Nothing"),
+            },
+            Value::Bool(b) => s.serialize_bool(*b),
+            Value::Number(n) => {
+                if let Some(i) = n.as_i64() {
+                    match pick {
+                        0 if i8::try_from(i).is_ok() => s.serialize_i8(i as i8),
+                        0 if i16::try_from(i).is_ok() => s.serialize_i16(i as i16),
+                        0 if i32::try_from(i).is_ok() => s.serialize_i32(i as i32),
+                        1 if u8::try_from(i).is_ok() => s.serialize_u8(i as u8),
+                        1 if u16::try_from(i).is_ok() => s.serialize_u16(i as u16),
+                        1 if u32::try_from(i).is_ok() => s.serialize_u32(i as u32),
+                        2 if i >= 0 => s.serialize_u64(i as u64),
+                        _ => s.serialize_i64(i),
+                    }
+                } else if let Some(u) = n.as_u64() {
+                    s.serialize_u64(u)
+                } else {
+                    s.serialize_f64(n.as_f64().unwrap_or(0.0))
+                }
+            }
+            Value::String(x) => {
+                let mut it = x.chars();
+                match (pick, it.next(), it.next()) {
+                    (0, Some(c), None) => s.serialize_char(c),
+                    (1, _, _) | (2, _, _) => match intern(x) {
+                        Some(st) => s.serialize_unit_variant("Kind", (h >> 16) as u32 % 7, st),
+                        None => s.serialize_str(x),
+                    },
+                    _ => s.serialize_str(x),
+                }
+            }
+            Value::Array(a) => match pick {
+                0 => {
+                    let mut t = s.serialize_tuple(a.len())?;
+                    for (k, x) in a.iter().enumerate() {
+                        t.serialize_element(&child(x, k))?;
+                    }
+                    t.end()
+                }
+                1 => {
+                    let mut t = s.serialize_tuple_struct("Tuple", a.len())?;
+                    for (k, x) in a.iter().enumerate() {
+                        t.serialize_field(&child(x, k))?;
+                    }
+                    t.end()
+                }
+                _ => {
+                    let mut t = s.serialize_seq(if pick == 2 { Some(a.len()) } else { None })?;
+                    for (k, x) in a.iter().enumerate() {
+                        t.serialize_element(&child(x, k))?;
+                    }
+                    t.end()
+                }
+            },
+            Value::Object(o) => {
+                let keys: Option<Vec<&'static str>> = if pick < 2 { o.keys().map(|k| intern(k)).collect() } else { None };
+                match keys {
+                    Some(keys) => {
+                        let mut t = s.serialize_struct("Record", o.len())?;
+                        for (k, (key, x)) in keys.iter().zip(o.values()).enumerate() {
+                            t.serialize_field(key, &child(x, k))?;
+                        }
+                        t.end()
+                    }
+                    None => {
+                        let mut t = s.serialize_map(if pick == 2 { Some(o.len()) } else { None })?;
+                        for (k, (key, x)) in o.iter().enumerate() {
+                            if k % 2 == 0 {
+                                t.serialize_entry(key, &child(x, k))?;
+                            } else {
+                                t.serialize_key(key)?;
+                                t.serialize_value(&child(x, k))?;
+                            }
+                        }
+                        t.end()
+                    }
+                }
+            }
+        }
+    }
+}
+
+/// Every way of handing the same JSON document to `search` gives the same outcome:
+/// the parsed text, a borrowed or owned `serde_json::Value`, `Variable::try_from`
+/// of either, an `Rcvar`, a borrowed `Variable`, and a Rust value that reaches the
+/// serializer through the less common serde calls.  Compared exactly (serialised
+/// result or error with coordinates) against the parsed-text route.
+pub fn data_routes_agree(sub: &str, text: &str, doc_json: &str, salt: u64) -> Result<(), crate::runner::Failure> {
+    use std::convert::TryFrom;
+    use std::panic::AssertUnwindSafe;
+    let fail = |sig: &str, msg: String| crate::runner::Failure::new(sub, sig, msg, serde_json::json!({"expression": text, "document": doc_json, "salt": salt}));
+    let compiled = match jmespath::compile(text) {
+        Ok(c) => c,
+        Err(_) => return Ok(()),
+    };
+    let value: serde_json::Value = match serde_json::from_str(doc_json) {
+        Ok(v) => v,
+        Err(_) => return Ok(()),
+    };
+    // the serializer calls must denote the same document under serde_json itself
+    let calls = SerdeCalls { v: &value, salt };
+    match serde_json::to_value(&calls) {
+        Ok(v2) if v2 == value => {}
+        other => return Err(fail("harness-serde-calls-denote-another-document", format!("serde_json maps the call sequence to {:?}", other.map(|v| v.to_string())))),
+    }
+    let show = |r: Result<jmespath::Rcvar, JmespathError>| -> String {
+        match r {
+            Ok(v) => format!("Ok({})", serde_json::to_string(&*v).unwrap_or_else(|e| format!("<unserialisable: {}>", e))),
+            Err(e) => format!("Err({:?} offset {} line {} column {})", e.reason, e.offset, e.line, e.column),
+        }
+    };
+    let base_var = match Variable::from_json(doc_json) {
+        Ok(v) => v,
+        Err(_) => return Ok(()),
+    };
+    let run = |label: &str, f: &dyn Fn() -> Result<jmespath::Rcvar, JmespathError>| -> Result<String, crate::runner::Failure> {
+        match catch(AssertUnwindSafe(f)) {
+            Ok(r) => Ok(show(r)),
+            Err(p) => Err(fail("panic", format!("search through the {} route panicked: {}", label, p))),
+        }
+    };
+    let base = run("parsed-text", &|| compiled.search(base_var.clone()))?;
+    let rc = jmespath::Rcvar::new(base_var.clone());
+    let routes: Vec<(&str, Box<dyn Fn() -> Result<jmespath::Rcvar, JmespathError> + '_>)> = vec![
+        ("&serde_json::Value", Box::new(|| compiled.search(&value))),
+        ("owned serde_json::Value", Box::new(|| compiled.search(value.clone()))),
+        ("Variable::try_from(owned Value)", Box::new(|| compiled.search(Variable::try_from(value.clone())?))),
+        ("Variable::try_from(&Value)", Box::new(|| compiled.search(Variable::try_from(&value)?))),
+        ("Rcvar", Box::new(|| compiled.search(rc.clone()))),
+        ("&Rcvar", Box::new(|| compiled.search(&rc))),
+        ("&Variable", Box::new(|| compiled.search(&base_var))),
+        ("Rust value (uncommon serde calls)", Box::new(|| compiled.search(SerdeCalls { v: &value, salt }))),
+        ("Variable::from_serializable(Rust value)", Box::new(|| compiled.search(Variable::from_serializable(SerdeCalls { v: &value, salt: salt ^ 0x5555 })?))),
+    ];
+    for (label, f) in routes.iter() {
+        let got = run(label, f.as_ref())?;
+        if got != base {
+            return Err(fail("data-route-changes-the-result", format!("{} on the document handed in as {} gives {} but on the parsed text it gives {}", text, label, clip(&got, 300), clip(&base, 300))));
+        }
+    }
+    Ok(())
+}
+
